@@ -13,7 +13,7 @@ def setup_print(ip, st, fr, case):
     buf = st.new_symlist(fresh('buffer', ('list', 'str')).t, 'str')
     sec = st.new_symlist(fresh('section', ('list', 'str')).t, 'str')
     fr['self'] = st.new_obj('OutputBuffer', {'buffer_output': True, 'buffer': buf, 'in_section': fresh('in_section', 'bool'), 'section': sec,
-                                             'batch': fresh('batch', 'bool'), 'verbose': fresh('verbose', 'bool'), 'debug': False,
+                                             'batch': fresh('batch', 'bool'), 'verbose': fresh('verbose', 'bool'), 'debug': fresh('debug', 'bool') if case.get('$sym_debug') else False,
                                              'use_colors': fresh('use_colors', 'bool'), 'json': False, '_OutputBuffer__level': lvl,
                                              '_OutputBuffer__is_color_supported': fresh('color_supported', 'bool'), 'line_ended': True})
     fr['level'] = case['$level']
@@ -23,6 +23,37 @@ def setup_print(ip, st, fr, case):
     fr['g_lvl'] = lvl
     fr['g_rank'] = RANK[case['$level']]
     return {}
+
+
+def setup_wrapper(ip, st, fr, case):
+    """the public wrappers (head/good/warn/fail/info/sep/v/d): same receiver as setup_print, with the debug flag symbolic as well"""
+    setup_print(ip, st, fr, dict(case, **{'$sym_debug': True}))
+    del fr['level']
+    if case.get('$no_s'):
+        del fr['s']
+    if case.get('$no_always'):
+        del fr['always_print']
+        fr['g_always'] = False
+    else:
+        fr['g_always'] = fr['always_print']
+    if case.get('$write_now') is not None:
+        fr['write_now'] = case['$write_now']
+    return {}
+
+
+def setup_flush(ip, st, fr, case):
+    setup_print(ip, st, fr, case)
+    for k in ('level', 's', 'line_ended', 'always_print'):
+        del fr[k]
+    fr['sort_section'] = False
+    return {}
+
+
+# exactly one line carrying s goes to the active buffer, the other buffer is untouched
+ONE_LINE = ("((len(self.section) == len(S) + 1 and self.buffer == B and self.section[:len(S)] == S and s in self.section[len(S)]) if INSEC else "
+            "(len(self.buffer) == len(B) + 1 and self.section == S and self.buffer[:len(B)] == B and s in self.buffer[len(B)]))")
+NOTHING = "(self.buffer == B and self.section == S)"
+LET = {'B': 'self.buffer', 'S': 'self.section', 'INSEC': 'self.in_section', 'BATCH': 'self.batch', 'VERBOSE': 'self.verbose', 'DEBUG': 'self.debug'}
 
 
 def units():
@@ -38,4 +69,39 @@ def units():
                 "implies(always_print or g_rank >= g_lvl, (len(self.section) == len(S) + 1 and self.buffer == B and self.section[:len(S)] == S) if INSEC else (len(self.buffer) == len(B) + 1 and self.section == S and self.buffer[:len(B)] == B))",
                 "implies(always_print or g_rank >= g_lvl, s in (self.section[len(S)] if INSEC else self.buffer[len(B)]))",
             ]), harness=None))
+    # the level ranks themselves: 'good' ranks as 'info', an unknown name (a heading) ranks above every minimum level
+    for name, rank in sorted(RANK.items()):
+        U.append(Unit(Contract('OutputBuffer.get_level', setup=lambda ip, st, fr, case: (setup_print(ip, st, fr, case), [fr.pop(k) for k in ('level', 's', 'line_ended', 'always_print')], fr.__setitem__('name', case['$name']), {})[-1],
+                               cases=[{'$level': name, '$name': name}], raises={},
+                               ensures=["result == g_rank" if name != 'head' else "result > 2"]), harness=None))
+    # public wrappers: the level each one prints at, and which option may remove (batch) or add (verbose/debug) its line
+    for level in ('good', 'warn', 'fail', 'info'):
+        U.append(Unit(Contract(
+            'OutputBuffer.' + level, setup=setup_wrapper, cases=[{'$level': level, '$write_now': False} if level == 'fail' else {'$level': level}], raises={}, let=LET,
+            ensures=["result is self",
+                     "implies(not g_always and g_rank < g_lvl, %s)" % NOTHING,
+                     "implies(g_always or g_rank >= g_lvl, %s)" % ONE_LINE]), harness=None))
+    U.append(Unit(Contract(
+        'OutputBuffer.head', setup=setup_wrapper, cases=[{'$level': 'head', '$no_always': True}], raises={}, let=LET,
+        ensures=["result is self",
+                 # batch mode removes headings and nothing else; otherwise a heading passes every minimum level
+                 "implies(BATCH, %s)" % NOTHING,
+                 "implies(not BATCH, %s)" % ONE_LINE]), harness=None))
+    U.append(Unit(Contract(
+        'OutputBuffer.sep', setup=setup_wrapper, cases=[{'$level': 'info', '$no_always': True, '$no_s': True}], raises={}, let=LET,
+        ensures=["result is self",
+                 "implies(BATCH or g_rank < g_lvl, %s)" % NOTHING,
+                 "implies(not BATCH and g_rank >= g_lvl, (len(self.section) == len(S) + 1 and self.buffer == B and self.section[:len(S)] == S and self.section[len(S)] == '') if INSEC else "
+                 "(len(self.buffer) == len(B) + 1 and self.section == S and self.buffer[:len(B)] == B and self.buffer[len(B)] == ''))"]), harness=None))
+    for meth, on in (('v', 'VERBOSE or DEBUG'), ('d', 'DEBUG')):
+        U.append(Unit(Contract(
+            'OutputBuffer.' + meth, setup=setup_wrapper, cases=[{'$level': 'info', '$no_always': True, '$write_now': False}], raises={}, let=LET,
+            ensures=["result is self",
+                     # verbose/debug messages are extra 'info' lines: absent unless the option is on, and then subject to the level filter
+                     "implies(not (%s) or g_rank < g_lvl, %s)" % (on, NOTHING),
+                     "implies((%s) and g_rank >= g_lvl, %s)" % (on, ONE_LINE)]), harness=None))
+    # closing a section moves its lines, in order, behind the lines already in the buffer
+    U.append(Unit(Contract(
+        'OutputBuffer.flush_section', setup=setup_flush, cases=[{'$level': 'info'}], raises={}, let=LET,
+        ensures=["self.buffer == B + S", "len(self.section) == 0"]), harness=None))
     return U
